@@ -21,6 +21,38 @@ pub fn label_of(c: char) -> Option<CharacterBoundary> {
     }
 }
 
+pub fn type_of(t: u8) -> Option<vaporetto::CharacterType> {
+    use vaporetto::CharacterType::*;
+    Some(match t {
+        1 => Digit,
+        2 => Roman,
+        3 => Hiragana,
+        4 => Katakana,
+        5 => Kanji,
+        6 => Other,
+        _ => return None,
+    })
+}
+
+pub fn parse_rules(rs: &str) -> Option<hashbrown::HashMap<String, Vec<Option<String>>>> {
+    let mut m = hashbrown::HashMap::new();
+    if rs == "-" {
+        return Some(m);
+    }
+    for r in rs.split('/') {
+        let (k, ts) = r.split_once('=')?;
+        let k = unhexs(k)?;
+        let mut v = vec![];
+        if !ts.is_empty() {
+            for t in ts.split('+') {
+                v.push(if t == "~" { None } else { Some(unhexs(t)?) });
+            }
+        }
+        m.insert(k, v);
+    }
+    Some(m)
+}
+
 fn show_tag(t: &Option<std::borrow::Cow<str>>) -> String {
     match t {
         None => "~".into(),
@@ -460,6 +492,30 @@ pub fn run_hist<'p>(
                 let Ok(k) = k.parse::<usize>() else { return "bad-op".into() };
                 let Some(m) = models.get(k) else { return "bad-op".into() };
                 format!("Z{}", m.spec_scores(s.as_raw_text()).iter().map(|x| x.to_string()).collect::<Vec<_>>().join("."))
+            }
+            ["filter", rest @ ..] => {
+                use vaporetto_rules::{sentence_filters::*, SentenceFilter};
+                let before = if oracle == "c15" {
+                    Some((obs_sel(&s, "TYK"), s.boundaries().to_vec(), s.tags().iter().map(|t| t.as_ref().map(|c| std::borrow::Cow::Owned(c.to_string()))).collect::<Vec<Option<std::borrow::Cow<str>>>>()))
+                } else {
+                    None
+                };
+                let filt: Option<Box<dyn SentenceFilter>> = match rest {
+                    ["ws", t] => t.parse::<u8>().ok().and_then(type_of).map(|t| Box::new(KyteaWsConstFilter::new(t)) as Box<dyn SentenceFilter>),
+                    ["lb"] => Some(Box::new(SplitLinebreaksFilter)),
+                    ["gc", _] => Some(Box::new(ConcatGraphemeClustersFilter)),
+                    ["tag", rs] => parse_rules(rs).map(|r| Box::new(PatternMatchTagger::new(r)) as Box<dyn SentenceFilter>),
+                    _ => None,
+                };
+                let Some(filt) = filt else { return "bad-op".into() };
+                let r = match catch(|| filt.filter(&mut s)) {
+                    Ok(()) => "ok".to_string(),
+                    Err(_) => "panic".to_string(),
+                };
+                if let Some((ty, b0, t0)) = before {
+                    crate::filt::oracle_c15(rest, &b0, &t0, &mut s, &r, filt.as_ref(), &ty, fails);
+                }
+                r
             }
             ["tspec", k] => {
                 let Ok(k) = k.parse::<usize>() else { return "bad-op".into() };
